@@ -183,6 +183,40 @@ def reunite (pre : Pre) (backend : Bool) (evalHash : Str) (alive : Str → Bool)
     | none => (pre, none)
   else (pre, none)
 
+/-! ### the Batch queue: jobs in every status; only in-flight ones are listed for reuniting -/
+
+inductive Status where
+  | submitted | pending | runnable | starting | running | succeeded | failed
+  deriving DecidableEq, Repr
+
+/-- `BATCH_JOB_STATUSES.inflight`, in listing order -/
+def inflightStatuses : List Status := [.submitted, .pending, .runnable, .starting, .running]
+
+/-- a job as the Batch API holds it; `children` = (child job id, array index, child status) -/
+structure BatchJob where
+  name : Str
+  jobId : Str
+  queue : Str
+  status : Status
+  children : List (Str × Nat × Status)
+  deriving Repr
+
+/-- `get_array_child_jobs(job_id, statuses)`: one `list_jobs(arrayJobId, jobStatus)` call per status -/
+def listChildren (statuses : List Status) (j : BatchJob) : List (Str × Nat) :=
+  statuses.flatMap fun st => (j.children.filter fun c => c.2.2 = st).map fun c => (c.1, c.2.1)
+
+/-- `get_jobs(statuses)`: one `list_jobs(jobQueue, jobStatus)` call per status, names filtered by the
+configured `job_name_prefix` -/
+def listJobs (queue pfx : Str) (statuses : List Status) (jobs : List BatchJob) : List BatchJob :=
+  statuses.flatMap fun st => jobs.filter fun j => j.status = st ∧ j.queue = queue ∧ pfx.isPrefixOf j.name
+
+def toInflight (j : BatchJob) : Inflight :=
+  { name := j.name, jobId := j.jobId, children := listChildren inflightStatuses j }
+
+/-- `gather_inflight_jobs` against the queue -/
+def gatherQueue (evalFile : Str → Option (List Str)) (queue pfx : Str) (jobs : List BatchJob) : Except PErr Pre :=
+  gather evalFile ((listJobs queue pfx inflightStatuses jobs).map toInflight)
+
 /-- `str.splitlines()` restricted to what the eval-hash file contains (`\n`-joined, no other line
 separators): the empty text has no lines -/
 def evalLines (text : Str) : List Str := if text = [] then [] else splitNL text
